@@ -98,6 +98,7 @@ func (x *Exec) rtype(t types.Type) Val {
 	if t == nil {
 		return IfaceV{}
 	}
+	t = types.Unalias(t)
 	return IfaceV{T: x.w.rtypePtr, V: RTypeV{T: t}}
 }
 
@@ -451,7 +452,7 @@ func (x *Exec) reflectStub(fn *ssa.Function, args []Val) (Val, bool) {
 			panic(panicV{msg: "reflect: Field index out of range"})
 		}
 		f := st.Field(i)
-		nr := RValV{T: f.Type(), Addr: r.Addr, StickyRO: r.StickyRO}
+		nr := RValV{T: types.Unalias(f.Type()), Addr: r.Addr, StickyRO: r.StickyRO}
 		if !f.Exported() {
 			if f.Embedded() {
 				nr.EmbedRO = true
